@@ -7,6 +7,7 @@ package hx
 import (
 	"encoding/json"
 	"fmt"
+	"math/big"
 	"os"
 	"path/filepath"
 	"sync"
@@ -63,15 +64,17 @@ func BaseConf() *xconf.EnvConf {
 
 // NodeOpts are the genesis-level options of a generated node.
 type NodeOpts struct {
-	Window       int64  // irreversibleslidewindow
-	NoFee        bool   // genesis nofee
-	Award        int64  // block award
-	Quota        int64  // predistribution per ring address
-	QuotaStr     string // if set: decimal predistribution (amounts beyond 64 bit)
-	PredistN     int    // number of ring addresses funded at genesis
-	MaxBlockSize int    // MB
-	NewAccGas    int64  // new_account_resource_amount
-	NoLog        bool   // do not keep a write log (replicas)
+	Window       int64   // irreversibleslidewindow
+	NoFee        bool    // genesis nofee
+	Award        int64   // block award
+	Quota        int64   // predistribution per ring address
+	QuotaStr     string  // if set: decimal predistribution (amounts beyond 64 bit)
+	DecayGap     int64   // award_decay.height_gap (0: the default, practically no decay)
+	DecayRatio   float64 // award_decay.ratio
+	PredistN     int     // number of ring addresses funded at genesis
+	MaxBlockSize int     // MB
+	NewAccGas    int64   // new_account_resource_amount
+	NoLog        bool    // do not keep a write log (replicas)
 	GasPrice     [4]int64
 }
 
@@ -101,7 +104,7 @@ func (o NodeOpts) GenesisJSON() []byte {
 		"maxblocksize":    fmt.Sprint(o.MaxBlockSize),
 		"award":           fmt.Sprint(o.Award),
 		"decimals":        "8",
-		"award_decay":     map[string]interface{}{"height_gap": 31536000, "ratio": 1},
+		"award_decay":     o.awardDecay(),
 		"gas_price": map[string]interface{}{"cpu_rate": o.GasPrice[0], "mem_rate": o.GasPrice[1],
 			"disk_rate": o.GasPrice[2], "xfee_rate": o.GasPrice[3]},
 		"new_account_resource_amount": o.NewAccGas,
@@ -112,6 +115,23 @@ func (o NodeOpts) GenesisJSON() []byte {
 	}
 	b, _ := json.Marshal(g)
 	return b
+}
+
+func (o NodeOpts) awardDecay() map[string]interface{} {
+	if o.DecayGap > 0 {
+		return map[string]interface{}{"height_gap": o.DecayGap, "ratio": o.DecayRatio}
+	}
+	return map[string]interface{}{"height_gap": 31536000, "ratio": 1}
+}
+
+// FreshAward is CalcAward(height) as a node without any history computes it (a new GenesisBlock
+// object built from the genesis configuration).
+func (n *Node) FreshAward(height int64) *big.Int {
+	gb, err := ledgerpkg.NewGenesisBlock(n.Genesis)
+	if err != nil {
+		return big.NewInt(-1)
+	}
+	return gb.CalcAward(height)
 }
 
 // Node is one in-process node core.
